@@ -139,12 +139,22 @@ func (cc *c03Caller) name() string {
 // c03DoFirst performs the first request of an HTTP/2 / HTTP/3 cut case under the caller mode
 // (or as a streaming caller) and renders "ok body=<bytes>" / "fail".
 func c03DoFirst(c *Client, url string, stream bool, cc *c03Caller) (first, ferr string) {
+	return c03DoFirstM(c, "GET", url, stream, cc)
+}
+
+func c03DoFirstM(c *Client, method, url string, stream bool, cc *c03Caller) (first, ferr string) {
 	first = "fail"
 	rq := c.R()
 	if !stream {
 		cc.prepRequest(rq)
 	}
-	resp, err := rq.Get(url)
+	var resp *Response
+	var err error
+	if method == "HEAD" {
+		resp, err = rq.Head(url)
+	} else {
+		resp, err = rq.Get(url)
+	}
 	if err != nil {
 		return first, err.Error()
 	}
